@@ -2,6 +2,7 @@ package hsim
 
 import (
 	"fmt"
+	"os"
 	"sort"
 	"strings"
 	"testing"
@@ -190,10 +191,16 @@ func init() {
 				p.BlockOps = []string{"entity_add", "entity_delete", "custom", "comp_add", "comp_delete", "comp_update", "pose", "type_add", "subscribe", "unsubscribe", "action", "asset_add", "joiner", "close", "switch", "quad_sample", "get_region", "comp_list"}
 			})
 			r := simrt.NewRand(seed, "c09")
-			if r.Bool(0.25) {
+			// the workers running the race-detector build spend most of their (much slower)
+			// runs on the two families in which unsynchronised accesses meet
+			pStorm, pDuel := 0.25, 0.25
+			if os.Getenv("HSIM_MIX") == "race" {
+				pStorm, pDuel = 0.45, 0.6
+			}
+			if r.Bool(pStorm) {
 				return componentStorm(seed, r, p)
 			}
-			if r.Bool(0.25) {
+			if r.Bool(pDuel) {
 				return duel(seed, r, p)
 			}
 			p.MinMembers = 2 + r.Intn(6)
@@ -201,7 +208,7 @@ func init() {
 			sc.Prop = "C09"
 			// production decorators in two thirds of the runs; without them in the rest: their
 			// fmt traffic (sync.Pool) orders almost everything in the eyes of the race detector
-			sc.World.Decorators = seed%3 != 0
+			sc.World.Decorators = c09Decorators(seed)
 			// one big block at the end: every joined connection issues a request at once
 			if r.Bool(0.6) {
 				blk := 100000
@@ -331,7 +338,7 @@ func duel(seed uint64, r *simrt.Rand, p *Profile) *Scenario {
 	sc := &Scenario{Prop: "C09", Family: "history", Seed: seed, Steps: g.steps}
 	sc.World = genWorld(seed, r, p)
 	sc.World.Modules = []string{"vikja", "odal", "dagaz"}
-	sc.World.Decorators = seed%3 != 0
+	sc.World.Decorators = c09Decorators(seed)
 	if sc.World.Policy == "seq" {
 		sc.World.Policy = "rand"
 	}
@@ -388,7 +395,7 @@ func componentStorm(seed uint64, r *simrt.Rand, p *Profile) *Scenario {
 	sc := &Scenario{Prop: "C09", Family: "history", Seed: seed, Steps: g.steps}
 	sc.World = genWorld(seed, r, p)
 	sc.World.Modules = []string{"vikja", "odal", "dagaz"}
-	sc.World.Decorators = seed%3 != 0
+	sc.World.Decorators = c09Decorators(seed)
 	if sc.World.Policy == "seq" {
 		sc.World.Policy = "rand"
 	}
@@ -396,4 +403,14 @@ func componentStorm(seed uint64, r *simrt.Rand, p *Profile) *Scenario {
 	sc.World.UnlockYield = []float64{0.2, 0.5, 0.8}[r.Intn(3)]
 	sc.World.FrameDuration = []time.Duration{time.Millisecond, 5 * time.Millisecond, 15 * time.Millisecond}[r.Intn(3)]
 	return sc
+}
+
+// c09Decorators: the production decorators are on in two thirds of the C09 runs (one third of
+// the runs of the race-detector workers): their fmt traffic goes through sync.Pool, which orders
+// almost every pair of accesses in the eyes of the race detector.
+func c09Decorators(seed uint64) bool {
+	if os.Getenv("HSIM_MIX") == "race" {
+		return seed%3 == 1
+	}
+	return seed%3 != 0
 }
